@@ -321,14 +321,14 @@ PROPS = {
                       checkers=["corr", "oracle"], timeout=3000)],
         allowed_axioms=[],
         trusted_base=[
-            "the handler combinators are modelled as the state machines of their Rust step functions (FollowedBy First/Second, AndThen First/Second, one-shot lane actions that fail when stepped again); every lane modification here carries DIRTY | TRIGGER_HANDLER; value and map stores carry `previous` exactly as Inner / MapStoreInner do",
+            "the handler combinators are modelled as the state machines of their Rust step functions (FollowedBy First/Second, AndThen First/Second, the result transformers Discard / Option / Map, one-shot lane actions that fail when stepped again); every lane modification here carries DIRTY | TRIGGER_HANDLER; value and map stores carry `previous` exactly as Inner / MapStoreInner do",
             "the order in which the task loop picks top-level handlers (lane commands, completed suspended futures) is NOT modelled: the harness reconstructs it from the recorded trace (first event of each command / begin marker of each suspended handler) and gives it to the model; a trace that no order of whole top-level handlers explains fails the comparison",
             "the real agent is a derived AgentLaneModel with `#[lifecycle]` handlers run by AgentModel over byte-channel lanes on a single-threaded tokio runtime; lanes are transient (no store)",
         ],
         assumptions=[
             "programs are acyclic by rank (a lifecycle handler of an item only modifies items of lower rank; suspended handlers stay below the rank of their spawner): termination is proved for such stratified programs (C06_acyclic_programs_terminate); cyclic programs are outside the claim (the documentation says they exhaust the stack)",
             "a failing handler of a lane command is abandoned and the agent carries on (the code logs `Incoming frame was rejected by the item`), whereas docs/event_handler.md says the agent fails: the model follows the code; the property's own failure clause (nothing further of the handler or of those it interrupted runs) holds either way",
-            "commands are sent singly or, a third of the time, two to four at once before anything is awaited (then every lane used is synced), so the runtime chooses the order among outstanding commands and completed suspended futures; that order is read off the trace (command values are unique); value lanes, map lanes, effects, get / set / and_then / followed_by / suspend are covered, other lane kinds and downlink lifecycles are not (partial)",
+            "commands are sent singly or, a third of the time, two to four at once before anything is awaited (then every lane used is synced), so the runtime chooses the order among outstanding commands and completed suspended futures; that order is read off the trace (command values are unique); value lanes, map lanes, effects, get / set / and_then / followed_by / discard / Some(..) / map / suspend are covered, other lane kinds and downlink lifecycles are not (partial)",
         ],
     ),
     "C05": dict(
